@@ -205,3 +205,41 @@ func vh_C14_ManyCallers() {
 	}
 	vfReach("end")
 }
+
+// the instance-method constructors Cor.New (interface{} coroutine) and NewAndStart pair requests the same way
+func vh_C14_UtilInstance() {
+	var target *CorDef[interface{}]
+	var caller *CorDef[interface{}]
+	x1, x2, y1, y2 := vfInt("x1"), vfInt("x2"), vfInt("y1"), vfInt("y2")
+	var seen, got []interface{}
+	started := false
+	ready := make(chan struct{}) // NewAndStart runs the effect before the caller has the coroutine in hand
+	body := func() {
+		started = true
+		<-ready
+		seen = append(seen, target.YieldRef(y1))
+		seen = append(seen, target.YieldRef(y2))
+	}
+	if !vfNoPanic("nopanic", func() {
+		if vfChoose("ctor", 2) == 0 {
+			target = Cor.New(body)
+			vfAssert("not-started", !target.IsStarted())
+			target.Start()
+		} else {
+			target = Cor.NewAndStart(body)
+		}
+		close(ready)
+		caller = Cor.New(func() {
+			got = append(got, caller.YieldFrom(target, x1))
+			got = append(got, caller.YieldFrom(target, x2))
+		})
+		caller.Start()
+		vfQuiesce()
+	}) {
+		return
+	}
+	vfAssert("started", started && target.IsStarted())
+	vfAssert("target-saw-every-request", len(seen) == 2 && seen[0] == interface{}(x1) && seen[1] == interface{}(x2))
+	vfAssert("caller-got-every-answer-in-order", len(got) == 2 && got[0] == interface{}(y1) && got[1] == interface{}(y2))
+	vfReach("end")
+}
